@@ -413,6 +413,54 @@ pub fn routing_violations(obs: &Obs, conv: &Conv) -> Vec<(String, String)> {
     out
 }
 
+/// A legal plaintext handshake response in either layout, with a capability mask from several
+/// classes (never the SSL bit), random max-packet/charset and trailing auth bytes. What the client
+/// announced in its handshake must not change how later commands are answered.
+pub fn random_handshake(rng: &mut Rng) -> (Vec<u8>, String) {
+    let layout41 = !rng.chance(1, 4);
+    let (caps, cc): (u32, &str) = match rng.below(6) {
+        0 => (1u32 << rng.below(32), "single bit"),
+        1 => (0xFFFF_FFFF, "all bits"),
+        2 => (0x003f_a685 | 0x2000_0000, "typical client"),
+        3 => (0, "none"),
+        4 => (0x0000_0001, "long-password only"),
+        _ => (rng.next() as u32, "random"),
+    };
+    let caps = caps & !wire::CLIENT_SSL;
+    let tl = rng.below(40) as usize;
+    let tail = rng.bytes(tl);
+    let ul = rng.range(0, 12) as usize;
+    let user: Vec<u8> = rng.ascii(ul).into_iter().filter(|b| *b != 0).collect();
+    let hs = if layout41 { wire::handshake41(caps, rng.next() as u32, rng.below(256) as u8, &user, &tail) } else { wire::handshake320((caps as u16) & !(wire::CLIENT_PROTOCOL_41 as u16), rng.next() as u32 & 0xFF_FFFF, &user, &tail) };
+    (hs, format!("{} caps={}", if layout41 { "4.1" } else { "3.20" }, cc))
+}
+
+/// Like `routing_violations` for a connection that ended early with an error: the callbacks seen
+/// must be a prefix of the model's list (each one verbatim), nothing more is demanded.
+pub fn routing_prefix_violations(obs: &Obs, conv: &Conv) -> Vec<(String, String)> {
+    let mut out = Vec::new();
+    let got: Vec<&Cb> = obs.log.cbs.iter().filter(|c| !matches!(c.kind, CbKind::Auth { .. })).collect();
+    let mut gi = 0;
+    for (ci, e) in conv.exp.iter().enumerate() {
+        match e {
+            Exp::Cb(cb) => {
+                let Some(g) = got.get(gi) else { return out };
+                if let Err((c, d)) = cb_matches(g, cb) {
+                    out.push((c, format!("command #{}: {}", ci, d)));
+                    return out;
+                }
+                gi += 1;
+            }
+            Exp::Builtin | Exp::Silent => {}
+            Exp::Quit | Exp::ConnErr(_) => break,
+        }
+    }
+    if got.len() > gi {
+        out.push(("extra-callback".into(), format!("unexpected callback {}", cb_summary(got[gi]))));
+    }
+    out
+}
+
 fn exp_name(cb: &ExpCb) -> &'static str {
     match cb {
         ExpCb::Query(_) => "on_query",
